@@ -7,7 +7,8 @@ RULE = ("AVCDecoderConfigurationRecords built from 0..31 SPS and 0..40 (sometime
         "bytes with SPS/PPS or foreign headers, lengths 0, 1, 2 and up to 65535), random reserved bits, versions 0..255 "
         "sometimes, trailing extension bytes; every prefix of some records; byte mutations of valid records. "
         "observable: construction verdict, fixed-field accessors, both iterators' items, created context (full Debug) or "
-        "the error - and no panic anywhere. non-trivial = construction succeeded with at least one parameter set")
+        "the error - and no panic anywhere; every profile byte x {00,10,ef,ff,random} compatibility x levels {9..12,random}; "
+        "NALs of 65533..65535 bytes followed by further entries; nth/skip/count/last/size_hint agree with next().  non-trivial = construction succeeded with at least one parameter set")
 CORRESPONDENCE = "Model/Avcc.v try_from / accessors / iterators / create_context vs avcc.rs"
 ASSUMPTIONS = ["SPS/PPS parsing per C04/C05; context per C19"]
 
@@ -58,6 +59,13 @@ def gen(tier, rng):
                 ppss.append(rand_nal(rng, "pps")[0] if npps < 100 else bytes([0x68, 0x80]))
         if i % 97 == 0:
             spss = [bytes([0x67]) + bytes(65534)] if nsps else spss
+        if i % 97 in (1, 2, 3) and nsps:
+            # a NAL whose length field is at the top of its range, followed by further entries (stepping over it)
+            big = bytes([0x67 if i % 2 else 0x68]) + bytes(rng.randrange(256) for _ in range(rng.choice([65532, 65533, 65534])))
+            if i % 2:
+                spss = [big] + spss[:2]
+            else:
+                ppss = [big] + ppss[:3]
         rec = build(rng, spss, ppss, version=1 if rng.random() < 0.95 else rng.randrange(256),
                     trailing=bytes(rng.randrange(256) for _ in range(rng.choice([0, 0, 1, 4]))))
         cases.append("avcc " + hx(rec))
@@ -80,10 +88,22 @@ def gen(tier, rng):
         if ln > 5:
             b[5] = (b[5] & 0xe0) | rng.choice([0, 1, 2])
         cases.append("avcc " + hx(bytes(b)))
+    # fixed header bytes: every profile x selected compatibility flags x the level bytes whose meaning depends on the flags
+    for prof in range(256):
+        for compat in (0x00, 0x10, 0xef, 0xff, rng.randrange(256)):
+            for lvl in (9, 10, 11, 12, rng.randrange(256)):
+                cases.append("avcc " + hx(bytes([1, prof, compat, lvl, 0xfc | rng.randrange(4), 0xe0, 0])))
     # the D2 witnesses
     cases.append("avcc 0142001effe0010000")
     cases.append("avcc 0142001effe10000016701000168")
     return cases
+
+
+def extra_check(r):
+    """the other Iterator entry points (nth, skip, count, last, size_hint) agree with next()"""
+    if "alt=" in r["dev"]:
+        return ("value", "an iterator entry point other than next() disagrees with next() or panics: " + r["dev"].split("alt=")[1][:200])
+    return None
 
 
 def nontrivial(r):
